@@ -264,6 +264,11 @@ impl Builder<AllTerms> {
         parent_id: I,
         child_id: J,
     ) -> HpoResult<()> {
+        // check both terms before modifying anything, otherwise a failing
+        // call would leave a dangling child in the parent term
+        if self.hpo_terms.get(child_id.into()).is_none() {
+            return Err(HpoError::DoesNotExist);
+        }
         let parent = self
             .hpo_terms
             .get_mut(parent_id.into())
